@@ -44,7 +44,23 @@ def gen_one(rng, i, tier):
     rs = sorted(set([rng.random() for _ in range(3)] + [rng.choice([0.0, 1.0, 0.5, 0.25])]))
     return {"stream": stream, "pos": pos, "neg": neg, "ep": ep, "en": en, "sc": sc, "ec": ec, "ts": ts,
             "rs": rs, "a": rng.choice([0.5, 2.0, 4.0, 2.0 ** -13, 2.0 ** 10]), "b": rng.choice([0.0, 1.0, -0.75, 3.5]),
-            "tiefree": tiefree, "G": rng.choice([1, 2, 3]), "gsalt": rng.randint(0, 10**6)}
+            "tiefree": tiefree, "G": rng.choice([1, 2, 3]), "gsalt": rng.randint(0, 10**6),
+            "tam": _gen_tam(rng, pos, neg)}
+
+
+def _gen_tam(rng, pos, neg):
+    """arguments of one threshold_at_metric call: None / k evenly spaced points / the caller's points"""
+    if not pos or not neg or rng.random() < 0.3:
+        return None
+    lo, hi = min(pos + neg), max(pos + neg)
+    kind = rng.choice(["none", "int", "int", "array"])
+    if kind == "none":
+        pts = None
+    elif kind == "int":
+        pts = rng.choice([2, 3, 5, 8, 17, rng.randint(2, 40)])
+    else:
+        pts = sorted(rng.uniform(lo - 0.1, hi + 0.1) for _ in range(rng.randint(2, 12)))
+    return {"metric": rng.choice(gen.METRICS), "target": rng.uniform(0.03, 0.97), "points": pts}
 
 
 def nontrivial(inp):
@@ -135,10 +151,15 @@ def build(inp) -> Case:
     for metric in gen.METRICS:
         arr_empty = (len(pos) == 0 and metric in ("tpr", "fnr")) or (len(neg) == 0 and metric in ("tnr", "fpr")) \
             or (len(pos) + len(neg) == 0)
-        for r in inp["rs"]:
-            r0 = common.call(getattr(s, "threshold_at_" + metric), r)
-            r1 = common.call(getattr(sn, "threshold_at_" + metric), r)
-            r2 = common.call(getattr(sa, "threshold_at_" + metric), r)
+        for r, meth in [(r_, "linear") for r_ in inp["rs"]] + [(r_, m_) for r_ in inp["rs"] if (r_ * 64) != round(r_ * 64) for m_ in ("lower", "higher")][:6]:
+            # (lower/higher jump where target * N is a whole number; a target on that grid is decided by float noise in
+            # 1 - r and r - 1/N, which differs between the two objects, so only off-grid targets are compared)
+            # every method: `lower` / `higher` are defined through the metric's value, which negation with a flipped
+            # score_class preserves, so the same method gives the negated threshold (theorem C08_negate_threshold_methods)
+            kwm = {} if meth == "linear" else {"method": meth}
+            r0 = common.call(getattr(s, "threshold_at_" + metric), r, **kwm)
+            r1 = common.call(getattr(sn, "threshold_at_" + metric), r, **kwm)
+            r2 = common.call(getattr(sa, "threshold_at_" + metric), r, **kwm)
             if arr_empty:
                 if not (r0[0] == r1[0] == r2[0] == "exc"):
                     pre.append(Issue("PROPFAIL", "error-symmetry", f"threshold_at_{metric} error behaviour differs", f"thr/{metric}/error"))
@@ -148,9 +169,52 @@ def build(inp) -> Case:
                 continue
             t0, t1, t2 = float(r0[1]), float(r1[1]), float(r2[1])
             if abs(t1 + t0) > _ulps(t0) + 1e-12 * scale:
-                pre.append(Issue("PROPFAIL", "negate-threshold", f"threshold_at_{metric}({r}): original {t0}, negated object {t1}", f"thr/{metric}/negate"))
+                pre.append(Issue("PROPFAIL", "negate-threshold", f"threshold_at_{metric}({r}, {meth}): original {t0}, negated object {t1}", f"thr/{metric}/negate"))
             if abs(t2 - (a * t0 + b)) > a * _ulps(t0) + _ulps(t2) + 1e-12 * scale * a:
-                pre.append(Issue("PROPFAIL", "affine-threshold", f"threshold_at_{metric}({r}): original {t0}, image {t2}, expected {a*t0+b}", f"thr/{metric}/affine"))
+                pre.append(Issue("PROPFAIL", "affine-threshold", f"threshold_at_{metric}({r}, {meth}): original {t0}, image {t2}, expected {a*t0+b}", f"thr/{metric}/affine"))
+    # ---- the general threshold search (threshold_at_metric) under negation and the affine map: its evaluation grid
+    # (all scores, k evenly spaced points, or the caller's points mapped along) is mapped by the same map, the metric
+    # values on it are unchanged, so every returned solution is mapped too
+    tam_skipped = 0
+    if pos and neg and inp.get("tam"):
+        tam = inp["tam"]
+        mname, target, pts = tam["metric"], tam["target"], tam["points"]
+
+        def tam_call(obj, pts_):
+            r_ = common.call(obj.threshold_at_metric, target, mname, pts_)
+            return r_ if r_[0] == "exc" else ("ok", np.asarray(r_[1], dtype=float).reshape(-1))
+        p0 = pts if not isinstance(pts, list) else np.array(pts, dtype=float)
+        p1 = pts if not isinstance(pts, list) else -np.array(pts, dtype=float)[::-1]
+        p2 = pts if not isinstance(pts, list) else a * np.array(pts, dtype=float) + b
+        q0, q1, q2 = tam_call(s, p0), tam_call(sn, p1), tam_call(sa, p2)
+        allsc = np.sort(np.concatenate([np.asarray(pos, dtype=float), np.asarray(neg, dtype=float)]))
+        if pts is None:
+            grid, interior = allsc, np.zeros(0)
+        elif isinstance(pts, int):
+            grid = np.linspace(allsc[0], allsc[-1], pts, endpoint=True) if allsc[0] < allsc[-1] else allsc[:1]
+            interior = grid[1:-1]
+        else:
+            grid = interior = np.asarray(pts, dtype=float)
+        # The relations are judged when nothing hinges on a comparison of (nearly) equal floats computed along two routes:
+        # the target is not attained at a grid point, and no computed grid point sits on a score (the metric jumps there;
+        # the end points of an evenly spaced grid ARE scores in every one of the three objects, exactly).
+        vals = np.asarray(getattr(s, mname)(grid), dtype=float)
+        clear = bool(np.all(np.abs(vals - target) > 1e-9)) and (
+            len(interior) == 0 or bool(np.min(np.abs(interior[:, None] - allsc[None, :])) > 1e-7 * scale))
+        # without a crossing the answer is the single closest sample point, first one in grid order among equally close
+        # ones: not a symmetric notion, so the relations are claimed for targets the sampled metric crosses
+        clear = clear and len(vals) > 1 and bool(np.any((vals[:-1] - target) * (vals[1:] - target) < 0))
+        if q0[0] == "ok" and clear:
+            for nm_, q_, img in (("negated", q1, np.sort(-q0[1])), ("affine image", q2, a * q0[1] + b)):
+                if q_[0] == "exc":
+                    pre.append(Issue("PROPFAIL", "raises", f"threshold_at_metric({target}, {mname}, points={pts}) raised on the {nm_} "
+                                     f"object: {q_[1:]}", "tam/raises"))
+                elif len(q_[1]) != len(img) or not np.allclose(np.sort(q_[1]), img, rtol=1e-9, atol=1e-9 * scale * max(a, 1.0)):
+                    pre.append(Issue("PROPFAIL", "negate-threshold" if nm_ == "negated" else "affine-threshold",
+                                     f"threshold_at_metric({target}, {mname}, points={pts}): original {q0[1].tolist()[:6]}, {nm_} object "
+                                     f"{q_[1].tolist()[:6]}, expected {img.tolist()[:6]}", f"tam/{mname}/{'negate' if nm_ == 'negated' else 'affine'}"))
+        elif q0[0] == "ok":
+            tam_skipped = 1
     if pos and neg:
         e0, e1, e2 = common.call(s.eer), common.call(sn.eer), common.call(sa.eer)
         if "exc" in (e0[0], e1[0], e2[0]):
@@ -243,7 +307,10 @@ def build(inp) -> Case:
                         break
         return iss
 
-    return Case(ID, inp, lines, judge, tuple(tags), 0, pre)
+    if inp.get("tam"):
+        tags.append("threshold_at_metric:" + ("none" if inp["tam"]["points"] is None else
+                                              "int" if isinstance(inp["tam"]["points"], int) else "array"))
+    return Case(ID, inp, lines, judge, tuple(tags), tam_skipped, pre)
 
 
 def shrink_candidates(inp):
